@@ -12,12 +12,17 @@ Later(s, k, n) == [s EXCEPT !.fireOld = k, !.newSp = n]
 
 UpTo2(S) == {e \in SUBSET S : Cardinality(e) <= 2}
 
+\* exception symbols: e1/e2 are Exceptions; b1 (SystemExit), b2 (a user BaseException subclass) and b3
+\* (KeyboardInterrupt) are BaseExceptions that are NOT Exceptions - raised by f or failing its Deferred
+FnsBase == {Fn("raise", 0, "b1"), Fn("raise", 0, "b3"), Fn("dnowerr", 0, "b2"), Fn("dfail", 1, "b1"), Fn("dfail", 2, "b2"),
+            Fn("dfail", 3, "b3")}
+
 \* ---- A: one run() call, every relative order of "fires at d", "timeout T", "stop at k" -------------
 FnsA == {Fn("ret", 0, x) : x \in {"None", "zero", "v1"}}
         \cup {Fn("raise", 0, "e1"), Fn("dnowok", 0, "None"), Fn("dnowerr", 0, "e1"), Fn("never", 0, "-"),
               Fn("dfire", 1, "None")}
         \cup {Fn("dfire", d, "v1") : d \in 0..4}
-        \cup {Fn("dfail", d, "e1") : d \in 0..4}
+        \cup {Fn("dfail", d, "e1") : d \in 0..4} \cup FnsBase
 ScenA == {s \in {Mk(f, T, ex, sel, st, re) : f \in FnsA, T \in 1..3, ex \in UpTo2({1, 2, 3, 5}), sel \in 0..1,
                                              st \in {NoStop} \cup 0..4, re \in BOOLEAN} : s.reenter => s.sel = 0}
 
@@ -26,12 +31,12 @@ FnsAT == {Fn("ret", 0, x) : x \in {"None", "zero", "v1"}}
         \cup {Fn("raise", 0, "e1"), Fn("dnowok", 0, "None"), Fn("dnowerr", 0, "e1"), Fn("never", 0, "-"),
               Fn("dfire", 1, "None"), Fn("dfire", 2, "zero")}
         \cup {Fn("dfire", d, "v1") : d \in 0..5}
-        \cup {Fn("dfail", d, "e1") : d \in 0..5}
+        \cup {Fn("dfail", d, "e1") : d \in 0..5} \cup FnsBase \cup {Fn("raise", 0, "b2"), Fn("dnowerr", 0, "b1")}
 ScenAT == {Mk(f, T, ex, sel, st, re) : f \in FnsAT, T \in 1..4, ex \in UpTo2(1..6), sel \in 0..1,
                                        st \in {NoStop} \cup 0..5, re \in BOOLEAN}
 
 \* ---- B: two run() calls on one Spinner (results v1/e1 then v2/e2), with/without clear_junk() ------
-FnsB1 == {Fn("ret", 0, "v1"), Fn("ret", 0, "None"), Fn("raise", 0, "e1"), Fn("dfire", 1, "v1"),
+FnsB1 == {Fn("ret", 0, "v1"), Fn("ret", 0, "None"), Fn("raise", 0, "e1"), Fn("raise", 0, "b1"), Fn("dfire", 1, "v1"),
           Fn("dfail", 1, "e1"), Fn("dfire", 3, "v1"), Fn("never", 0, "-")}
 FnsB2 == {Fn("ret", 0, "v2"), Fn("ret", 0, "None"), Fn("raise", 0, "e2"), Fn("dfire", 1, "v2"),
           Fn("dfail", 1, "e2"), Fn("dfire", 3, "v2"), Fn("never", 0, "-")}
@@ -88,7 +93,8 @@ Wide(s) == LET ts == <<FnTime(s), s.T, s.stopAt>> IN
            /\ \A x \in s.extra : \A i \in 1..3 : ts[i] # x
            /\ (s.k \in {"ret", "raise", "dnowok", "dnowerr"} => s.stopAt # 0)
 ScenR == {s \in {Mk(f, T, ex, sel, st, FALSE) :
-                    f \in {Fn("ret", 0, "None"), Fn("raise", 0, "e1"), Fn("dfire", 1, "v1"), Fn("dfail", 1, "e1"),
+                    f \in {Fn("ret", 0, "None"), Fn("raise", 0, "e1"), Fn("raise", 0, "b1"), Fn("dfail", 1, "b2"),
+                           Fn("dfire", 1, "v1"), Fn("dfail", 1, "e1"),
                            Fn("dfire", 3, "v1"), Fn("never", 0, "-")},
                     T \in {2}, ex \in {{}, {5}}, sel \in 0..1, st \in {NoStop, 1}} : Wide(s) /\ (s.sel = 1 => s.extra = {5})}
 \* busy real reactor (time.sleep in a callback): late failure / late success after the timeout
